@@ -34,6 +34,9 @@ func runeStr(n int, ascii bool) string {
 	return b.String()
 }
 
+// locParamMapKey: the probed value is the key of a map carried outside the body (name[key]=value)
+const locParamMapKey valgen.Loc = 100
+
 // Sites enumerates boundary probes (both sides) for the value v of type t.
 // set replaces the value in its parent.
 func Sites(sp *spec.Spec, g *valgen.G, t *spec.Type, val *spec.Val, v any, path string, loc valgen.Loc, set func(any), depth int) []Site {
@@ -50,6 +53,12 @@ func Sites(sp *spec.Spec, g *valgen.G, t *spec.Type, val *spec.Val, v any, path 
 	for _, m := range valgen.AllVals(sp, t, val) {
 		m := m
 		add := func(rule, side string, nv any) {
+			if loc == locParamMapKey {
+				// name[key]=value cannot spell a key holding a bracket, or no key at all (TransportSafe, maps)
+				if kt := vtree.Text(nv); kt == "" || strings.ContainsAny(kt, "[]") {
+					return
+				}
+			}
 			if !TransportSafe(loc, nv) {
 				return // net/http would alter or drop the value in this location
 			}
@@ -228,7 +237,11 @@ func Sites(sp *spec.Spec, g *valgen.G, t *spec.Type, val *spec.Val, v any, path 
 			}
 			out = append(out, Sites(sp, g, rt.Elem.Type, rt.Elem.Val, mm[k], path+"{"+k+"}", valgen.Body, func(nv any) { mm[k] = nv }, depth+1)...)
 			// key validations
-			out = append(out, Sites(sp, g, rt.Key.Type, rt.Key.Val, k, path+"{key}", valgen.Body, func(nv any) {
+			kloc := valgen.Body
+			if loc != valgen.Body {
+				kloc = locParamMapKey
+			}
+			out = append(out, Sites(sp, g, rt.Key.Type, rt.Key.Val, k, path+"{key}", kloc, func(nv any) {
 				if ks, ok := nv.(string); ok {
 					e := mm[k]
 					delete(mm, k)
